@@ -196,6 +196,9 @@ def oracle(ck, tier, deep):
             kw = {}
             if rng.random() < 0.5 or rep_i:
                 kw["sigma"] = float(rng.uniform(1.5, max(4.0, n / 12)))        # up to peaks that are wide compared with the image
+                if rep_i == 1 and name not in ("Gaussian", "O2"):
+                    kw["sigma"] = float(rng.uniform(n / 6, n / 3))             # … and far wider: the outer segments of the approximated
+                                                                               # Gaussians then start beyond the corner of the image
             if name == "Ominus":
                 kw["temperature"] = float(rng.choice([100, 200, 600]))
             tol = float([rng.choice([4.8e-3, 1e-3, 1.4e-2]), rng.choice(lattice), np.exp(rng.uniform(np.log(1e-3), np.log(5e-2)))][rep_i])
